@@ -125,6 +125,59 @@ fn delivery_oracle(lock: &Lock, sc: &Scenario, quiescent: bool) -> Vec<(String, 
     out
 }
 
+/// Ghost-history oracle on the recorded channel logs: for every ProcessResults event in which a
+/// worker reports (awaiter, target) as completed there is a LATER UpdateAwaitResults command to
+/// the awaiter that carries a result for that target (evaluated when all queues are empty).
+fn await_answer_oracle(lock: &Lock) -> Vec<(String, String)> {
+    use quiver_environment::{Command, Event};
+    let mut out = vec![];
+    if !lock.sim.idle() {
+        return out;
+    }
+    let mut reports: Vec<(u64, usize, usize)> = vec![];
+    let mut updates: Vec<(u64, usize, usize)> = vec![];
+    // An awaiter that starts a second select replaces its pending entry in the environment, which
+    // legitimately discards answers collected for the completed one; the exact statement is
+    // therefore evaluated for awaiters that issued exactly one AwaitAction.
+    let mut awaits: HashMap<usize, usize> = HashMap::new();
+    for ch in &lock.sim.chans {
+        let c = ch.chan.lock().unwrap();
+        for (seq, e) in &c.evt_log {
+            if let Event::ProcessResults { awaiter, results } = e {
+                for (t, r) in results {
+                    if r.is_some() {
+                        reports.push((*seq, *awaiter, *t));
+                    }
+                }
+            }
+            if let Event::AwaitAction { awaiter, .. } = e {
+                *awaits.entry(*awaiter).or_insert(0) += 1;
+            }
+        }
+        for (seq, cmd) in &c.cmd_log {
+            if let Command::UpdateAwaitResults { awaiter, results } = cmd {
+                for (t, r) in results {
+                    if r.is_some() {
+                        updates.push((*seq, *awaiter, *t));
+                    }
+                }
+            }
+        }
+    }
+    for (seq, a, t) in &reports {
+        if awaits.get(a).copied().unwrap_or(0) != 1 {
+            continue;
+        }
+        if !updates.iter().any(|(s2, a2, t2)| a2 == a && t2 == t && s2 > seq) {
+            out.push((
+                "oracle=await-answer-lost".to_string(),
+                format!("a worker reported process {t} as completed to awaiter {a} (ProcessResults, channel seq {seq}) but no later UpdateAwaitResults carries that result to the awaiter, and all queues are empty"),
+            ));
+        }
+    }
+    out
+}
+
 #[allow(clippy::too_many_arguments)]
 fn run_one(
     sc: &Scenario,
@@ -219,6 +272,10 @@ fn run_one(
                 }
             }
         }
+    }
+    // 3c. every completed target a worker reported to an awaiter is forwarded to that awaiter
+    for (sig, msg) in await_answer_oracle(&lock) {
+        violations.push((sig, msg, true));
     }
     // 4. termination
     if sc.terminates && !finished && lock.mismatch.is_none() {
@@ -364,7 +421,7 @@ fn main() {
     }
 
     // ---- stage 2: generated scenarios × adversarial schedules ------------------------------
-    let scenarios = opts.tier.pick(160u64, 3000);
+    let scenarios = opts.tier.pick(420u64, 6000);
     let schedules = opts.tier.pick(5u64, 24);
     let deadline = std::time::Instant::now() + std::time::Duration::from_secs(opts.tier.pick(100, 1200));
     let quanta = [Some(1usize), Some(2), Some(7), None];
@@ -389,7 +446,7 @@ fn main() {
             let n = 1 + rs.usize(4);
             let q = quanta[((i + k) as usize) % 4];
             let mut pol = Policy::random(&mut rs, n);
-            let small = matches!(q, Some(1) | Some(2));
+            let small = matches!(q, Some(1) | Some(2) | Some(7));
             if small {
                 // a starved worker with a 1-instruction quantum needs a very long schedule
                 for w in pol.worker_weights.iter_mut() {
